@@ -2386,6 +2386,8 @@ class BSP:
         add_faces = find_or_extend(self.faces)
 
         buf = BytesIO()
+        # Chaos stores the bounds as floats, the others as integers.
+        float_bounds = self.version is VERSIONS.CHAOSSOURCE
 
         node: VisTree
         for node in nodes:
@@ -2398,10 +2400,16 @@ class BSP:
             else:
                 neg_ind = add_node(node.child_neg)
 
+            if float_bounds:
+                bounds = (*node.mins, *node.maxes)
+            else:
+                bounds = (
+                    int(node.mins.x), int(node.mins.y), int(node.mins.z),
+                    int(node.maxes.x), int(node.maxes.y), int(node.maxes.z),
+                )
             buf.write(self.lump_layout['NODE'].pack(
                 add_plane(node.plane), neg_ind, pos_ind,
-                int(node.mins.x), int(node.mins.y), int(node.mins.z),
-                int(node.maxes.x), int(node.maxes.y), int(node.maxes.z),
+                *bounds,
                 add_faces(node.faces), len(node.faces), node.area_ind,
             ))
 
@@ -2421,6 +2429,8 @@ class BSP:
 
         # Some extra ambient light data.
         has_ambient = self.version <= 19
+        # Chaos stores the bounds as floats, the others as integers.
+        float_bounds = self.version is VERSIONS.CHAOSSOURCE
 
         for leaf in visleafs:
             # Do not deduplicate these, engine assumes they aren't when allocating memory.
@@ -2440,11 +2450,18 @@ class BSP:
                     leaf.water_id, leaf.flags.value,
                 ))
             else:
-                leafdata: tuple[Union[int, bytes], ...] = (
+                bounds: tuple[float, ...]
+                if float_bounds:
+                    bounds = (*leaf.mins, *leaf.maxes)
+                else:
+                    bounds = (
+                        int(leaf.mins.x), int(leaf.mins.y), int(leaf.mins.z),
+                        int(leaf.maxes.x), int(leaf.maxes.y), int(leaf.maxes.z),
+                    )
+                leafdata: tuple[Union[int, float, bytes], ...] = (
                     leaf.contents.value, leaf.cluster_id,
                     (leaf.area << self.lump_layout['LEAF_AREA_OFFSET'] | leaf.flags.value),
-                    int(leaf.mins.x), int(leaf.mins.y), int(leaf.mins.z),
-                    int(leaf.maxes.x), int(leaf.maxes.y), int(leaf.maxes.z),
+                    *bounds,
                     face_ind, len(leaf.faces),
                     brush_ind, len(leaf.brushes),
                     leaf.water_id)
